@@ -1881,8 +1881,9 @@ func (this *decodingTask) decode(res *decodingTaskResult) {
 	verifPoint(1, 6, this.processedBlockID, this.currentBlockID, 0)
 
 	// After completion of the bitstream reading, increment the block id.
-	// It unblocks the task processing the next block (if any)
-	atomic.StoreInt32(this.processedBlockID, this.currentBlockID)
+	// It unblocks the task processing the next block (if any).
+	// Do not overwrite a cancellation published by a failed task.
+	atomic.CompareAndSwapInt32(this.processedBlockID, this.currentBlockID-1, this.currentBlockID)
 	verifPoint(1, 9, this.processedBlockID, this.currentBlockID, 0)
 
 	// Check if the block must be skipped
